@@ -7,6 +7,7 @@ from ..procmodel import split_models, make_config, permeance_summary, process_fu
 from ..sigma import Sigma, swap_ident
 from ..symeval import val_key
 from ..values import *
+from ..symeval import called_from, in_function
 from ..repo import AnalysisError, FuncInfo
 from .c04 import addends
 
@@ -159,7 +160,7 @@ def check_pervaporation(ck, repo, scope):
             if o.kind == "return" and isinstance(o.value, TupV) and len(o.value.items) == 2:
                 paired(ck, Sigma(repo), df.qualname, "partial fluxes [%s]" % mode, o.value.items[0], o.value.items[1], df.loc(), "mode=%s" % mode)
                 for c in o.calls:
-                    if isinstance(c.callee, FuncInfo) and c.caller.func is df:
+                    if isinstance(c.callee, FuncInfo) and called_from(c, df):
                         call_equivariant(ck, Sigma(repo), df.qualname, c, "mode=%s" % mode)
     scope.append(df.qualname)
     # solver: the loop summary piece by piece
@@ -171,13 +172,13 @@ def check_pervaporation(ck, repo, scope):
             ck.analysed["paths"] += len(outs)
             cfgl = "mode=%s permeances=%s" % (mode, "given" if given == "notnone" else "None")
             for o in outs:
-                lps = [l for l in o.loops if l.kind == "while" and l.func is sv]
+                lps = [l for l in o.loops if l.kind == "while" and in_function(l.func, sv)]
                 if o.kind != "return" or not lps or not lps[0].entered:
                     continue
                 lp = lps[0]
                 sg = Sigma(repo)
                 for c in o.calls:
-                    if isinstance(c.callee, FuncInfo) and c.caller.func is sv and c.callee.qualname in (df.qualname, "Membrane.get_permeance"):
+                    if isinstance(c.callee, FuncInfo) and called_from(c, sv) and c.callee.qualname in (df.qualname, "Membrane.get_permeance"):
                         if c.callee.qualname == df.qualname:
                             call_equivariant(ck, sg, sv.qualname, c, cfgl)
                 for nm, v in lp.init.items():
@@ -220,7 +221,7 @@ def check_pervaporation(ck, repo, scope):
                 elif isinstance(o.value, Num):
                     inverts(ck, sg, name, "separation factor", o.value.r, f.loc(), "mode=%s" % mode)
                 for c in o.calls:
-                    if isinstance(c.callee, FuncInfo) and c.caller.func is f and c.callee.cls is f.cls:
+                    if isinstance(c.callee, FuncInfo) and called_from(c, f) and c.callee.cls is f.cls:
                         call_equivariant(ck, sg, name, c, "mode=%s" % mode)
         scope.append(name)
     f = repo.find_function("Pervaporation.ideal_diffusion_curve")
@@ -236,7 +237,7 @@ def check_pervaporation(ck, repo, scope):
             if isinstance(pf, ListV) and pf.kind == "fam" and isinstance(pf.elem, TupV) and len(pf.elem.items) == 2:
                 paired(ck, Sigma(repo), f.qualname, "partial fluxes of a curve point", pf.elem.items[0], pf.elem.items[1], f.loc(), "mode=%s" % mode)
             for c in o.calls:
-                if isinstance(c.callee, FuncInfo) and c.caller.func is f and c.callee.cls is f.cls:
+                if isinstance(c.callee, FuncInfo) and called_from(c, f) and c.callee.cls is f.cls:
                     call_equivariant(ck, Sigma(repo), f.qualname, c, "mode=%s" % mode)
     scope.append(f.qualname)
 
